@@ -716,6 +716,37 @@ def c18_scripts(rng, tier, schedules):
                 ops.append(o)
         ops.append({"op": "par_end"})
         S.append(ops)
+    # nearly equal configurations on one thread (wave 21, seeded change C18g: a per-thread table cache whose
+    # key compares the cutoff with a tolerance): a downsampling sinc resampler and a second one whose ratio -
+    # hence effective cutoff - differs by a few 1e-5, built before and/or after the reference on the same
+    # thread; the twin is built last, on the same or on a fresh thread. Drawn after every other family so
+    # that the scripts above are unchanged.
+    for _ in range({"quick": 60, "thorough": 300}[tier]):
+        kind = rng.choice(["SincFixedIn", "SincFixedOut"])
+        h = gen.valid_history(rng, kind, 1, small=False, allow=())
+        n = calm(h[0])
+        sig(n, rng)
+        n.pop("probe", None)
+        n.pop("Lraw", None)
+        n["ch"] = 1
+        n["chunk"] = rng.choice([64, 100, 256])
+        n["r"] = gen.rj(rng.choice([Fraction(1, 2), Fraction(2, 3), Fraction(3, 4), Fraction(147, 160), Fraction(1, 4)]))
+        rel = dict(n)
+        rel["r"] = {"bits": gen.bits(float(gen.frac_of(n["r"])) * (1 + rng.choice([2e-5, 5e-5, 8e-5, -3e-5, 1e-6])))}
+        calls = [{"op": "process"}] * 5
+        before = rng.random() < 0.5
+        ops = [{"op": "note", "twin": "full", "a": 0, "b": 1}]
+        if before:
+            ops += [with_id(rel, 10), {"op": "process", "id": 10}]
+        ops += [with_id(n, 0)] + [with_id(c, 0) for c in calls]
+        if not before or rng.random() < 0.5:
+            ops += [with_id(dict(rel), 11), {"op": "process", "id": 11}]
+        tw = with_id(n, 1)
+        if rng.random() < 0.4:
+            tw["thread"] = rng.randrange(1, 4)
+        ops.append(tw)
+        ops += [with_id(c, 1) for c in calls]
+        S.append(ops)
     return S
 
 
